@@ -4005,3 +4005,48 @@ def gen_PySetters(repo):
         L.append("def setters_%s : List Setter := %s" % (rel[:-3], lean_list(rows)))
     L.append("\nend Strengths.Gen.PySetters")
     return "\n".join(L) + "\n"
+
+
+# =============================================================================================
+# PyIdioms: Python constructs whose meaning differs from the value semantics the model assumes — identity comparison
+# with anything but None, substring test on a string literal, `assert` (vanishes under -O), a short-circuit operator
+# used as a VALUE (`x or default` treats 0 / False / {} / empty arrays as missing), `*d.values()` (relies on key order)
+# =============================================================================================
+@group
+def gen_PyIdioms(repo):
+    L = ["namespace Strengths.Gen.PyIdioms\n",
+         "/-- per source file: (kind, normalised text); kinds: `is` (identity comparison with something other than None),\n"
+         "`in-literal` (membership test in a string literal of several characters; `in-char`: in a one-character literal), `assert`, `boolop-value` (and/or used as a value with an operand that\n"
+         "is not a comparison), `boolop-of-comparisons` (and/or of comparisons used as a value), `star-dict` -/"]
+    for rel in PYNUMERIC_FILES:
+        src = PySrc(repo, "src/strengths/" + rel)
+        parents = {}
+        for node in ast.walk(src.tree):
+            for c in ast.iter_child_nodes(node):
+                parents[c] = node
+        inv = []
+        for node in ast.walk(src.tree):
+            if isinstance(node, ast.Compare):
+                for op, c in zip(node.ops, node.comparators):
+                    if isinstance(op, (ast.Is, ast.IsNot)) and not (isinstance(c, ast.Constant) and c.value is None):
+                        inv.append((node.lineno, node.col_offset, "is", re.sub(r"\s+", "", ast.unparse(node))))
+                    if isinstance(op, (ast.In, ast.NotIn)) and isinstance(c, ast.Constant) and isinstance(c.value, str):
+                        inv.append((node.lineno, node.col_offset, "in-char" if len(c.value) == 1 else "in-literal",
+                                    re.sub(r"\s+", "", ast.unparse(node))))
+            elif isinstance(node, ast.Assert):
+                inv.append((node.lineno, node.col_offset, "assert", re.sub(r"\s+", "", ast.unparse(node.test))))
+            elif isinstance(node, ast.BoolOp):
+                p = parents.get(node)
+                if not isinstance(p, (ast.If, ast.While, ast.BoolOp, ast.UnaryOp, ast.IfExp, ast.Assert)) or \
+                        (isinstance(p, ast.IfExp) and p.test is not node):
+                    pure = all(isinstance(v, ast.Compare) for v in node.values)
+                    inv.append((node.lineno, node.col_offset, "boolop-of-comparisons" if pure else "boolop-value",
+                                re.sub(r"\s+", "", ast.unparse(node))))
+            elif isinstance(node, ast.Starred) and isinstance(node.value, ast.Call) and isinstance(node.value.func, ast.Attribute) \
+                    and node.value.func.attr in ("values", "keys", "items"):
+                inv.append((node.lineno, node.col_offset, "star-dict", re.sub(r"\s+", "", ast.unparse(node))))
+        inv.sort()
+        L.append("def inv_%s : List (String × String) := %s" % (rel[:-3], lean_list(
+            ["(%s, %s)" % (lean_str(k), lean_str(t)) for _, _, k, t in inv])))
+    L.append("\nend Strengths.Gen.PyIdioms")
+    return "\n".join(L) + "\n"
